@@ -2,6 +2,7 @@ import MimicProofs.Results
 import Mimic.ResultsTables
 import MimicProofs.Types
 import MimicProofs.ResultsCode
+import Mimic.Extracted.Protocol
 /-!
 # C05 — Clients decode exactly the values the application returned (text and binary)
 
@@ -138,5 +139,18 @@ theorem temporal_encoders_are_code (y mo d h mi s us : Nat) (dur : Int) :
       (dur.natAbs / 1000000 % 86400) (dur.natAbs % 1000000) = binDur dur :=
   ⟨MimicProofs.ResultsCode.binary_encode_datetime_eq y mo d h mi s us, MimicProofs.ResultsCode.binary_encode_date_eq y mo d,
    MimicProofs.ResultsCode.binary_encode_timedelta_eq dur⟩
+
+
+/-! ### the protocol's numeric constants (extracted from `types.py` on every run) -/
+
+/-- **Column type codes are the protocol's**: every member of `ColumnType` has the value the MySQL protocol assigns to
+    it — an application that declares a column of any of these types gets that code in the column definition -/
+theorem column_type_codes :
+    Mimic.Extracted.Protocol.columnTypes =
+      [("DECIMAL", 0), ("TINY", 1), ("SHORT", 2), ("LONG", 3), ("FLOAT", 4), ("DOUBLE", 5), ("NULL", 6), ("TIMESTAMP", 7), ("LONGLONG", 8),
+       ("INT24", 9), ("DATE", 10), ("TIME", 11), ("DATETIME", 12), ("YEAR", 13), ("NEWDATE", 14), ("VARCHAR", 15), ("BIT", 16),
+       ("TIMESTAMP2", 17), ("DATETIME2", 18), ("TIME2", 19), ("TYPED_ARRAY", 20), ("INVALID", 243), ("BOOL", 244), ("JSON", 245),
+       ("NEWDECIMAL", 246), ("ENUM", 247), ("SET", 248), ("TINY_BLOB", 249), ("MEDIUM_BLOB", 250), ("LONG_BLOB", 251), ("BLOB", 252),
+       ("VAR_STRING", 253), ("STRING", 254), ("GEOMETRY", 255)] := by decide
 
 end MimicProps.C05
